@@ -179,6 +179,9 @@ func init() {
 				for _, v := range []TV{tvFloat("float64", 18), tvFloat("float64", 18.5), tvFloat("float64", -2.5), tvFloat("float32", 7), tvFloat("float64", 0), tvStr("18.5"), tvStr("18"), tvJSON("18.0"), tvJSON("18"),
 					tvInt("int", 18), tvInt("int64", -3), tvUint("uint8", 200), tvList(tvFloat("float64", 1), tvFloat("float64", 5)), tvSlice("[]int64", tvInt("int64", 1), tvInt("int64", 5)), tvSlice("[]float64", tvFloat("float64", 1)), tvBool(true), tvNil()} {
 					add(pIn{K: "rangenf", Op: op, V: v})
+					if op == 1 {
+						add(pIn{K: "intsnf", V: v})
+					}
 				}
 			}
 			// builds with a cache provider: under Skip / Error / Panic an unparseable conjunction next to conjunctions
